@@ -61,6 +61,7 @@ def run(s):
     repeated_id_deletes(s)
     under_error_filter(s)
     under_module_filter(s)
+    under_raising_log_handler(s)
     aligned_block_deletes(s)
     K.idless_cases(s)
     K.fuzz(s, 120 if q else 12000, K.kind_weights(1, 1, 0.3), steps=(5, 25),
@@ -110,6 +111,70 @@ def under_module_filter(s):
                                    {'kind': kind, 'mask': list(mask), 'under_always': want, 'under_module_filter': got,
                                     'exc': type(err1).__name__ if err1 else None},
                                    {'type': 'module-filter', 'ro_txt': txt, 'msg_txt': msg_txt}, msg_kind=kind, status='module-filter')
+
+
+def under_raising_log_handler(s):
+    """The host's log handler fails (a full disk, a closed socket) from the first record on. Whatever the merge
+    does then - when it RETURNS, every report it owes has been delivered as a warning."""
+    import logging
+    import warnings as W
+    from .. import events as EV
+
+    class Failing(logging.Handler):
+        def emit(self, record):
+            raise OSError(28, 'No space left on device (injected by the verification workload)')
+    idx = 0
+    S = ['A', 'B', 'C']
+    ro_txt = gen.grid_ro(S, 'before', pretty=False)
+    iro_txt = B.ro_doc('RO', 1, [gen.simple_story('A', 2, item_prefix='i'), gen.simple_story('B', 3, item_prefix='i')])
+    cats = ('StoryNotFoundWarning', 'ItemNotFoundWarning', 'DuplicateStoryWarning')
+    lg = logging.getLogger('mosromgr')
+    for txt, cases in ((ro_txt, list(K.subset_cases(S, 'story', nmax=2))),
+                       (iro_txt, list(K.subset_cases(['i0', 'i1', 'i2'], 'item', story_ref='B', nmax=2)))):
+        for kind, kw, nn, mask in cases:
+            idx += 1
+            if not s.mine(idx) or not any(mask):
+                continue
+            _log_handler_case(s, txt, B.msg_doc(kind, 7, **kw), kind, mask)
+
+
+def _log_handler_case(s, txt, msg_txt, kind, mask):
+    import logging
+    from .. import events as EV
+
+    class Failing(logging.Handler):
+        def emit(self, record):
+            raise OSError(28, 'No space left on device (injected by the verification workload)')
+    cats = ('StoryNotFoundWarning', 'ItemNotFoundWarning', 'DuplicateStoryWarning')
+    lg = logging.getLogger('mosromgr')
+    _ro, err0, wl0 = s.add(s.load(txt), s.load(msg_txt))
+    EV.drain()
+    want = sorted(type(w.message).__name__ for w in wl0 if type(w.message).__name__ in cats)
+    if err0 is not None or not want:
+        return
+    h = Failing(level=logging.DEBUG)
+    old = (lg.level, lg.disabled, lg.propagate, logging.root.manager.disable)
+    lg.addHandler(h)
+    lg.setLevel(logging.DEBUG)
+    lg.disabled = False
+    logging.disable(logging.NOTSET)
+    try:
+        _ro, err1, wl1 = s.add(s.load(txt), s.load(msg_txt))
+    finally:
+        lg.removeHandler(h)
+        lg.setLevel(old[0])
+        lg.disabled = old[1]
+        logging.disable(old[3])
+    EV.drain()
+    got = sorted(type(w.message).__name__ for w in wl1 if type(w.message).__name__ in cats)
+    s.evaluations += 1
+    s.note_sig(('raising-log-handler', kind, tuple(mask), type(err1).__name__ if err1 else 'returned'))
+    s.hist['cases_under_a_raising_log_handler'] += 1
+    if err1 is None and got != want:
+        s.custom_violation('report-lost-when-the-log-handler-fails',
+                           {'kind': kind, 'mask': list(mask), 'normally': want, 'delivered': got},
+                           {'type': 'log-handler', 'ro_txt': txt, 'msg_txt': msg_txt, 'kind': kind, 'mask': list(mask)},
+                           msg_kind=kind, status='log-handler')
 
 
 def aligned_block_deletes(s):
@@ -289,6 +354,8 @@ def replay(s, data):
     w = data['witness']
     if w.get('type') == 'collection-reports':
         return judge_collection_reports(s, w['docs'])
+    if w.get('type') == 'log-handler':
+        return _log_handler_case(s, w['ro_txt'], w['msg_txt'], w.get('kind'), w.get('mask', ()))
     if w.get('type') == 'module-filter':
         import warnings as W
         from .. import events as EV
